@@ -6,14 +6,16 @@
  * sibling, outer signatureAlgorithm != TBS, algorithm names another hash, SHA-1 / MD5, cA false,
  * basicConstraints absent, pathLen 0/1, keyUsage without keyCertSign / absent, expired, not yet valid,
  * unknown critical extension, AKI != issuer SKI / absent, issuer DN mismatch, X.509 v1, RSA-512 key,
- * self-signed leaf, ...).  ALL chains up to the length bound with at most D deviating positions are
+ * self-signed leaf, ...; good variants: unknown non-critical extension, EKU, RSASSA-PSS signature).  ALL chains up to the length bound with at most D deviating positions are
  * enumerated, in EVERY order of the supplied non-leaf certificates, against every trust-anchor set
  * { {}, {R}, {R2}, {R,R2}, {R2,R}, {L1 intermediate}, {R pathlen 0}, {R pathlen 1} } and validated with
  * matrixValidateCerts(); the verdict is compared with two small reference validators (c03_ref.h).
- * P-256 bulk slice plus RSA-2048, Ed25519, mixed-algorithm and "no key identifiers" slices, and a CRL slice. */
+ * RSA-2048 bulk slice (MatrixSSL verifies RSA-2048 in 0.13 ms, P-256 in 2 ms) plus P-256, Ed25519,
+ * mixed-algorithm (RSA root, P-384, Ed25519, P-256) and "no key identifiers" slices, and a CRL slice (c03_crl.h). */
 #include "c03_ref.h"
 #include <sys/mman.h>
 #include <unistd.h>
+#include <fcntl.h>
 
 static int thorough;
 
@@ -24,6 +26,21 @@ static void stdout_to_stderr(void)
     fflush(stdout);
     saved_stdout = dup(1);
     dup2(2, 1);
+}
+static void stdout_to_devnull(void)
+{
+    int fd = open("/dev/null", O_WRONLY);
+    fflush(stdout);
+    saved_stdout = dup(1);
+    if (fd >= 0)
+    {
+        dup2(fd, 1);
+        close(fd);
+    }
+    else
+    {
+        dup2(2, 1);
+    }
 }
 static void stdout_restore(void)
 {
@@ -215,6 +232,8 @@ static void ms_run(const int *chain, int n, const int *anch, int na, ms_t *o)
     for (i = 0; i < npa; i++) pa[i]->next = NULL;
 }
 
+#include "c03_crl.h"
+
 /* ---------------------------------------------------------------- one case */
 typedef struct { ms_t ms; ref_t lax, strict; int n, na; int chain[8], anch[4]; } eval_t;
 
@@ -349,46 +368,154 @@ static void dev_names(const asg_t *a, char *out, size_t n)
     if (!cnt) snprintf(out, n, "no-deviation");
 }
 
-static int is_soundness_violation(const eval_t *e)
+/* ------------------------------------------------- violation classes (stable keys) */
+typedef struct { int soundness, top_class; char label[40]; } vclass_t;
+
+/* no-anchor mode with a top certificate that is not self-signed: a root cause of its own */
+static int top_not_self_signed(const eval_t *e)
 {
-    return e->ms.accept && !e->lax.ok;
+    int last = e->chain[e->n - 1];
+    return e->na == 0 && !(self_issued(last) && edge_ok(last, last));
 }
 
-/* shrink the set of deviating positions to one that is still sufficient for the violation (stable key) */
-static void minimize(const case_t *c0, case_t *cmin)
+static int is_violation(const eval_t *e, const vclass_t *v)
 {
-    int i, save = g_dump;
-    eval_t e;
-    g_dump = 0;
-    *cmin = *c0;
-    for (i = 0; i <= cmin->a.m; i++)
+    if (v->soundness)
     {
-        if (cmin->a.kinds[i] != K_GOOD)
+        return e->ms.accept && !e->lax.ok && top_not_self_signed(e) == v->top_class;
+    }
+    return e->strict.ok && !e->ms.accept && !strcmp(e->ms.label, v->label);
+}
+
+static int still(const case_t *c, const vclass_t *v)
+{
+    eval_t e;
+    int save = g_dump, res;
+    g_dump = 0;
+    res = eval_case(c, &e) == 0 && is_violation(&e, v);
+    g_dump = save;
+    return res;
+}
+
+/* canonical representative of the violation class: simplest anchor set, natural order, no appended root,
+ * fewest deviating positions that still show the violation (greedy; deterministic) */
+static void canonicalize(const case_t *c0, const vclass_t *v, case_t *cm)
+{
+    int i, round;
+    case_t t, before;
+    *cm = *c0;
+    for (round = 0; round < 4; round++)
+    {
+        before = *cm;
+        if (cm->anchors != A_R)
         {
-            unsigned char keep = cmin->a.kinds[i];
-            cmin->a.kinds[i] = K_GOOD;
-            if (eval_case(cmin, &e) < 0 || !is_soundness_violation(&e))
+            t = *cm; t.anchors = A_R;
+            if (still(&t, v)) *cm = t;
+        }
+        if (cm->perm != 0)
+        {
+            t = *cm; t.perm = 0;
+            if (still(&t, v)) *cm = t;
+        }
+        if (cm->perm == 0 && cm->a.rootopt)
+        {
+            t = *cm; t.a.rootopt = 0;
+            if (still(&t, v)) *cm = t;
+        }
+        if (cm->anchors != A_R && cm->a.rootopt)
+        {
+            t = *cm; t.anchors = A_R; t.a.rootopt = 0; t.perm = 0;
+            if (still(&t, v)) *cm = t;
+        }
+        if (cm->a.rootopt == 2)
+        {
+            t = *cm; t.a.rootopt = 1;
+            if (still(&t, v)) *cm = t;
+        }
+        for (i = 0; i <= cm->a.m; i++)
+        {
+            if (cm->a.kinds[i] != K_GOOD)
             {
-                cmin->a.kinds[i] = keep;
+                t = *cm; t.a.kinds[i] = K_GOOD;
+                if (still(&t, v)) *cm = t;
             }
         }
-    }
-    if (cmin->a.rootopt == 2)
-    {
-        cmin->a.rootopt = 1;
-        if (eval_case(cmin, &e) < 0 || !is_soundness_violation(&e))
+        if (!memcmp(&before, cm, sizeof(before)))
         {
-            cmin->a.rootopt = 2;
+            break;
         }
     }
-    g_dump = save;
+}
+
+/* is the (canonical) shape a violation in this slice only? */
+static int slice_specific(const case_t *cm, const vclass_t *v)
+{
+    int sl, comparable = 0, ids[8];
+    for (sl = 0; sl < SL_N; sl++)
+    {
+        case_t t = *cm;
+        if (sl == cm->a.slice || cm->a.m > slice_max_int(sl))
+        {
+            continue;
+        }
+        build_slice(sl);
+        t.a.slice = (unsigned char) sl;
+        if (asg_chain(&t.a, ids) < 0)
+        {
+            continue;                    /* the shape does not exist in that slice */
+        }
+        comparable++;
+        if (still(&t, v))
+        {
+            return 0;
+        }
+    }
+    return comparable > 0;
+}
+
+static void class_key(const case_t *c, const eval_t *e, const vclass_t *v, char *key, size_t n, char *devs, size_t dn, case_t *canon)
+{
+    case_t cm;
+    *canon = *c;
+    size_t l;
+    if (v->soundness && v->top_class)
+    {
+        /* one root cause whatever else is wrong with the chain */
+        snprintf(devs, dn, "top-certificate-not-self-signed");
+        snprintf(key, n, "soundness|no-anchor-mode|%s", devs);
+        return;
+    }
+    canonicalize(c, v, &cm);
+    *canon = cm;
+    dev_names(&cm.a, devs, dn);
+    if (v->soundness)
+    {
+        snprintf(key, n, "soundness|%s", devs);
+    }
+    else
+    {
+        snprintf(key, n, "completeness|%s|%s", v->label, devs);
+    }
+    l = strlen(key);
+    if (cm.anchors == A_RPL0 || cm.anchors == A_RPL1) snprintf(key + l, n - l, "|anchor-with-pathlen");
+    else if (cm.anchors == A_NONE) snprintf(key + l, n - l, "|no-anchor-mode");
+    else if (cm.anchors != A_R) snprintf(key + l, n - l, "|anchors=%s", anchor_name[cm.anchors]);
+    l = strlen(key);
+    if (cm.a.rootopt == 1) snprintf(key + l, n - l, "|root-in-chain");
+    l = strlen(key);
+    if (cm.perm != 0) snprintf(key + l, n - l, "|unordered");
+    l = strlen(key);
+    if (slice_specific(&cm, v)) snprintf(key + l, n - l, "|only-%s", slice_name[cm.a.slice]);
 }
 
 static void run_case(const case_t *c, mx_result_t *r)
 {
     eval_t e;
+    vclass_t v;
+    case_t canon;
     char md[96], devs[200];
     memset(r, 0, sizeof(*r));
+    memset(&v, 0, sizeof(v));
     case_desc(c, r->desc, sizeof(r->desc));
     case_mdesc(c, md, sizeof(md));
     r->state_hash = fnv1a(md, strlen(md), FNV0);
@@ -405,15 +532,15 @@ static void run_case(const case_t *c, mx_result_t *r)
     snprintf(r->outcome, sizeof(r->outcome), "%s|%s|ms=%s|stmt=%s|must=%s", slice_name[c->a.slice], c->anchors == A_NONE ? "noanchor" : "anchored",
         e.ms.label, e.lax.ok ? "ok" : "no", e.strict.ok ? "y" : "n");
     r->trace_hash = fnv1a(r->outcome, strlen(r->outcome), FNV0);
-    if (is_soundness_violation(&e))
+    if (e.ms.accept && !e.lax.ok)
     {
-        case_t cm;
-        minimize(c, &cm);
-        dev_names(&cm.a, devs, sizeof(devs));
+        v.soundness = 1;
+        v.top_class = top_not_self_signed(&e);
         r->violation = 1;
-        snprintf(r->key, sizeof(r->key), "soundness|%s%s", devs, c->anchors == A_NONE ? "|no-anchor-mode" : "");
-        snprintf(r->what, sizeof(r->what), "matrixValidateCerts reports success (rc %d, every authStatus PASS) for %s chain with anchors %s but no path satisfies the statement: %s [sufficient deviation: %s]",
-            e.ms.rc, slice_name[c->a.slice], anchor_name[c->anchors], e.lax.why, devs);
+        class_key(c, &e, &v, r->key, sizeof(r->key), devs, sizeof(devs), &canon);
+        case_desc(&canon, r->desc, sizeof(r->desc));     /* the finding carries the canonical (smallest) case of its class */
+        snprintf(r->what, sizeof(r->what), "matrixValidateCerts reports success (rc 0, every authStatus PASS) although no path to a trust anchor satisfies the statement (%s); first seen at %s",
+            e.lax.why, md);
     }
     else if (e.ms.accept && e.na > 0 && !e.ms.found_is_anchor)
     {
@@ -423,10 +550,12 @@ static void run_case(const case_t *c, mx_result_t *r)
     }
     else if (e.strict.ok && !e.ms.accept)
     {
-        dev_names(&c->a, devs, sizeof(devs));
+        snprintf(v.label, sizeof(v.label), "%s", e.ms.label);
         r->violation = 1;
-        snprintf(r->key, sizeof(r->key), "completeness|%s|%s|%s%s", slice_name[c->a.slice], devs, e.ms.label, c->a.rootopt == 1 ? "|root-in-chain" : "");
-        snprintf(r->what, sizeof(r->what), "ordered chain meeting every rule (anchors %s) is rejected: rc %d (%s), label %s", anchor_name[c->anchors], e.ms.rc, rc_name(e.ms.rc), e.ms.label);
+        class_key(c, &e, &v, r->key, sizeof(r->key), devs, sizeof(devs), &canon);
+        case_desc(&canon, r->desc, sizeof(r->desc));
+        snprintf(r->what, sizeof(r->what), "leaf-first ordered chain meeting every rule is not accepted: rc %d (%s), verdict %s; first seen at %s",
+            e.ms.rc, rc_name(e.ms.rc), e.ms.label, md);
     }
 }
 
@@ -492,7 +621,11 @@ static void gen_all(void)
                     continue;
                 }
                 /* quick: <= 2 deviating positions; thorough: <= 3 up to length 4, <= 2 at length 5 */
-                maxdev = (thorough && len <= 4 && sl == SL_EC) ? 3 : 2;
+                maxdev = (thorough && len <= 4 && sl == SL_RSA) ? 3 : 2;
+                if (!thorough && m == 2 && (sl == SL_EC || sl == SL_MIX))
+                {
+                    maxdev = 1;          /* MatrixSSL needs 2 ms per P-256 and 5 ms per P-384 verification */
+                }
                 memset(&a, 0, sizeof(a));
                 a.slice = (unsigned char) sl; a.m = (unsigned char) m; a.rootopt = (unsigned char) r;
                 gen_rec(&a, 0, maxdev - (r == 2));
@@ -501,7 +634,23 @@ static void gen_all(void)
     }
 }
 
-static long *g_counts;                   /* shared: [0] cases, [1] natural-order cases, [2] ms accepts, [3] must-accept cases */
+static long *g_counts;                   /* shared: [0] cases, [1] natural-order cases, [2] ms accepts, [3] must-accept cases, [4] CRL cases */
+
+#ifdef USE_CRL
+static void run_crl_group(long g, void *unused)
+{
+    long k, lo = g * 64, hi = lo + 64;
+    (void) unused;
+    if (hi > ncrl) hi = ncrl;
+    for (k = lo; k < hi && !mx_deadline_hit(); k++)
+    {
+        mx_result_t r;
+        crl_run_case(&crl_cases[k], &r);
+        mx_record(&r);
+        __atomic_fetch_add(&g_counts[4], 1, __ATOMIC_RELAXED);
+    }
+}
+#endif
 
 static void run_group(long g, void *unused)
 {
@@ -553,12 +702,14 @@ int main(int argc, char **argv)
                "Validity kinds are 2 days outside the period (the library tolerates 24 h of clock skew, PS_X509_TIME_LINGER).";
     cfg.assumptions[0] = "clock pinned to 2024-01-01T00:00:00Z for MatrixSSL; the reference evaluates validity at the same instant";
     cfg.assumptions[1] = "per-edge signature truth = OpenSSL X509_verify(cert, issuer public key), restricted to algorithms/key sizes enabled by this build's cryptoConfig.h (SHA-1/MD5 certificate signatures disabled, RSA >= 1024)";
-    cfg.assumptions[2] = "parsed certificates are reused between cases of one worker after resetting authStatus/authFailFlags/revokedStatus to their post-parse values; replays always start from a fresh parse";
+    cfg.assumptions[2] = "parsed certificates are reused between cases of one worker after resetting authStatus/authFailFlags/revokedStatus and the signature bytes (RSA verification decrypts them in place) to their post-parse values; replays always start from a fresh parse";
+    cfg.assumptions[3] = "CRL slice: the application authenticates each CRL against the real issuer certificate (psX509AuthenticateCRL) before psCRL_Update unless the CRL kind says otherwise; stale, never-authenticated and conflicting same-issuer CRLs are don't-care";
+    cfg.assumptions[4] = "violation keys name the canonical (greedily minimised) representative of the class: anchors {R}, leaf-first order, no appended root and good certificates wherever the violation persists; '|only-<slice>' when the same shape is no violation in any other slice that has it";
     replay = mx_parse_args(argc, argv, &cfg);
     thorough = !strcmp(cfg.tier, "thorough");
     cfg.bound = thorough
-        ? "P-256 slice: all chains of length 1..5 (0..4 intermediates, optionally R or a second self-signed root appended) over 3 good + 25 deviating kinds per position with <= 3 deviating positions (<= 2 at length 5), every permutation of the non-leaf certificates, 8 anchor sets; RSA-2048 / Ed25519 / mixed RSA+P-384+Ed25519 / no-key-identifier slices: 0..2 intermediates, reduced kind lists, <= 2 deviations; CRL slice"
-        : "P-256 slice: all chains of length 1..4 (0..3 intermediates, optionally R or a second self-signed root appended) over 3 good + 25 deviating kinds per position with <= 2 deviating positions, every permutation of the non-leaf certificates, 8 anchor sets; RSA-2048 / Ed25519 / mixed RSA+P-384+Ed25519 / no-key-identifier slices: 0..2 intermediates, reduced kind lists, <= 2 deviations; CRL slice";
+        ? "RSA-2048 slice: all chains of length 1..5 (0..4 intermediates, optionally R or a second self-signed root of the same DN appended) over 4 good + 27 deviating kinds per position with <= 3 deviating positions (<= 2 at length 5), every permutation of the non-leaf certificates, 8 anchor sets; P-256 / Ed25519 / mixed RSA+P-384+Ed25519+P-256 / RSA-without-key-identifiers slices: 0..2 intermediates, reduced kind lists (7..16 kinds), <= 2 deviations, all permutations, 8 anchor sets; CRL slice: good RSA chains with 0..2 intermediates x every ordered load sequence of 0..3 distinct CRLs out of 7 CRL kinds per issuing level"
+        : "RSA-2048 slice: all chains of length 1..4 (0..3 intermediates, optionally R or a second self-signed root of the same DN appended) over 4 good + 27 deviating kinds per position with <= 2 deviating positions, every permutation of the non-leaf certificates, 8 anchor sets; P-256 / Ed25519 / mixed RSA+P-384+Ed25519+P-256 / RSA-without-key-identifiers slices: 0..2 intermediates, reduced kind lists (7..16 kinds), <= 2 deviations (P-256 and mixed: <= 1 with 2 intermediates), all permutations, 8 anchor sets; CRL slice: good RSA chains with 0..2 intermediates x every ordered load sequence of 0..2 distinct CRLs out of 7 CRL kinds per issuing level";
 
     env_reset(0);
     if (world_open() < 0)
@@ -569,12 +720,49 @@ int main(int argc, char **argv)
     {
         case_t c;
         mx_result_t r;
+#ifdef USE_CRL
+        if (!strncmp(replay, "crl=1;", 6))
+        {
+            crl_case_t cc;
+            if (crl_parse_desc(replay, &cc) < 0)
+            {
+                fprintf(stderr, "bad descriptor\n");
+                return 2;
+            }
+            crl_build();
+            g_dump = 1;
+            fprintf(stderr, "replaying: %s\n", replay);
+            stdout_to_stderr();
+            crl_run_case(&cc, &r);
+            stdout_restore();
+            mx_replay_print(&r);
+            return 0;
+        }
+#endif
         if (parse_desc(replay, &c) < 0)
         {
             fprintf(stderr, "bad descriptor\n");
             return 2;
         }
         build_slice(c.a.slice);
+        if (getenv("C03_BENCH"))
+        {
+            int i, nrep = atoi(getenv("C03_BENCH"));
+            double t0;
+            eval_t e;
+            stdout_to_stderr();
+            eval_case(&c, &e);
+            t0 = now_s();
+            for (i = 0; i < nrep; i++) ms_run(e.chain, e.n, e.anch, e.na, &e.ms);
+            fprintf(stderr, "bench: %d x ms_run: %.1f us each (%s)\n", nrep, (now_s() - t0) * 1e6 / nrep, e.ms.label);
+            t0 = now_s();
+            for (i = 0; i < nrep; i++) { ref_lax(e.chain, e.n, e.anch, e.na, &e.lax); ref_strict(e.chain, e.n, e.anch, e.na, &e.strict); }
+            fprintf(stderr, "bench: %d x reference: %.1f us each\n", nrep, (now_s() - t0) * 1e6 / nrep);
+            t0 = now_s();
+            for (i = 0; i < nrep; i++) { mx_result_t rr; run_case(&c, &rr); }
+            fprintf(stderr, "bench: %d x run_case: %.1f us each\n", nrep, (now_s() - t0) * 1e6 / nrep);
+            return 0;
+        }
         g_dump = 1;
         fprintf(stderr, "replaying: %s\n", replay);
         stdout_to_stderr();
@@ -592,10 +780,18 @@ int main(int argc, char **argv)
     gen_all();
     fprintf(stderr, "assignments: %ld\n", nasg);
     g_counts = mmap(NULL, 16 * sizeof(long), PROT_READ | PROT_WRITE, MAP_SHARED | MAP_ANONYMOUS, -1, 0);
-    stdout_to_stderr();
+    stdout_to_devnull();                 /* millions of library trace lines otherwise */
+#ifdef USE_CRL
+    crl_build();
+    crl_gen(thorough);
+    fprintf(stderr, "CRL cases: %ld\n", ncrl);
+    mx_parallel((ncrl + 63) / 64, run_crl_group, NULL);
+#else
+    mx_note_skipped("CRL slice: USE_CRL is not enabled in this build");
+#endif
     mx_parallel(nasg, run_group, NULL);
     stdout_restore();
-    snprintf(extra, sizeof(extra), "\"c03\": {\"universe_certificates\": %d, \"kind_assignments\": %ld, \"cases\": %ld, \"leaf_first_ordered_cases\": %ld, \"matrixssl_accepts\": %ld, \"must_accept_cases\": %ld}",
-        nU, nasg, g_counts[0], g_counts[1], g_counts[2], g_counts[3]);
+    snprintf(extra, sizeof(extra), "\"c03\": {\"universe_certificates\": %d, \"kind_assignments\": %ld, \"chain_cases\": %ld, \"leaf_first_ordered_cases\": %ld, \"matrixssl_accepts\": %ld, \"must_accept_cases\": %ld, \"crl_cases\": %ld}",
+        nU, nasg, g_counts[0], g_counts[1], g_counts[2], g_counts[3], g_counts[4]);
     return mx_finish(extra);
 }
